@@ -7,12 +7,12 @@ from mc.core import Acc
 
 ID = "C15"
 RULE = ("E-INPUT: every ordered pair of distinct domain instants from a set of datetimes spanning 1900..2200 (epoch neighbours, "
-        "leap day, year ends, ms-resolution instants: 40 instants, thorough 119; + a seeded instant) x 3 ranges x query instants "
+        "leap day, year ends, ms-resolution instants: 40 instants, thorough 119; + a seeded instant), plus domains of 1 ms .. 61 s at every instant, x 3 ranges (scale built domain-then-range, range-then-domain, or by re-domaining a live scale, in rotation) x query instants "
         "(end points, 5 interior fractions, 4 exterior points) through the real TimeScale. Oracle: exact affine map on naive "
         "epoch milliseconds (rationals); invert within 1 ms inside the domain; agreement with LinearScale on the oracle's "
         "milliseconds. Non-trivial: query strictly inside or outside the domain.")
 ASSUMPTIONS = ["TZ=UTC here; zone independence is C18", "relative tolerance 1e-9 of the range span for mapped positions"]
-REQUIRED_COUNTERS = ("queries", "pre_epoch_domains", "reversed_domains")
+REQUIRED_COUNTERS = ("queries", "pre_epoch_domains", "reversed_domains", "short_domains")
 
 BASE = [datetime(1900, 1, 1), datetime(1969, 12, 31, 23, 59, 59, 999000), datetime(1970, 1, 1), datetime(1970, 1, 1, 0, 0, 0, 1000),
         datetime(1999, 12, 31, 23, 59, 59), datetime(2000, 2, 29, 12), datetime(2001, 9, 9, 1, 46, 40), datetime(2020, 1, 31),
@@ -32,11 +32,24 @@ def bounds(tier, seed):
             "queries_per_domain": 2 + len(FRACS) + len(EXT)}
 
 
-def judge(t0, t1, rng, acc=None):
+ORDERS = ("domain-range", "range-domain", "redomain")
+
+
+def make_scale(t0, t1, rng, order):
+    from labella.scale import TimeScale
+    if order == "domain-range":
+        return TimeScale().domain([t0, t1]).range(list(rng))
+    if order == "range-domain":
+        return TimeScale().range(list(rng)).domain([t0, t1])
+    s = TimeScale().domain([datetime(2000, 1, 1), datetime(2001, 1, 1)]).range(list(rng))
+    return s.domain([t0, t1])  # a live scale gets a new domain
+
+
+def judge(t0, t1, rng, acc=None, order="domain-range"):
     from labella.scale import LinearScale, TimeScale
-    where = "domain [%s, %s] range %r" % (t0, t1, rng)
+    where = "domain [%s, %s] range %r (%s)" % (t0, t1, rng, order)
     try:
-        s = TimeScale().domain([t0, t1]).range(list(rng))
+        s = make_scale(t0, t1, rng, order)
         y0, y1 = s(t0), s(t1)
         dom = s.domain()
     except Exception as e:
@@ -110,18 +123,34 @@ def run_shard(shard):
                 acc.counters["pre_epoch_domains"] += 1
             if t1 < t0:
                 acc.counters["reversed_domains"] += 1
-            for rng in RANGES:
-                bad = judge(t0, t1, rng, acc)
+            for ri, rng in enumerate(RANGES):
+                order = ORDERS[(k + ri) % 3]
+                bad = judge(t0, t1, rng, acc, order)
                 acc.evals += 1
                 acc.trans += 1
                 if bad:
-                    acc.violation({"t0": t0, "t1": t1, "range": rng}, bad[0], bad[1], order=(k,))
-    acc.sample({"t0": t0, "t1": t1, "range": rng})
+                    acc.violation({"t0": t0, "t1": t1, "range": rng, "order": order}, bad[0], bad[1], order=(k,))
+    # short domains: a few milliseconds to a few seconds, far from and near the epoch
+    for bi, t0 in enumerate(ins):
+        if bi % shard["mod"] != shard["rem"]:
+            continue
+        for ms in (1, 8, 250, 1500, 5000, 61000):
+            for a, b in ((t0, t0 + timedelta(milliseconds=ms)), (t0 + timedelta(milliseconds=ms), t0)):
+                acc.states += 1
+                acc.counters["short_domains"] += 1
+                for ri, rng in enumerate(RANGES):
+                    order = ORDERS[(bi + ri) % 3]
+                    bad = judge(a, b, rng, acc, order)
+                    acc.evals += 1
+                    acc.trans += 1
+                    if bad:
+                        acc.violation({"t0": a, "t1": b, "range": rng, "order": order}, bad[0], bad[1], order=(10 ** 6 + ms, bi))
+    acc.sample({"t0": t0, "t1": t1, "range": rng, "order": "redomain"})
     return acc
 
 
 def replay(case):
-    return judge(case["t0"], case["t1"], case["range"])
+    return judge(case["t0"], case["t1"], case["range"], None, case.get("order", "domain-range"))
 
 
 def snippet(case):
